@@ -86,17 +86,21 @@ class ItemAttributeList(List[T]):
         list.insert(self, index, obj)
 
     def remove(self, obj: T) -> None:
-        list.remove(self, obj)
-
-        keys = [k for (k, v) in self._item_dict.items() if v == obj]
-        for key in keys:
-            del self._item_dict[key]
+        # like list.remove(), this removes the first item which
+        # compares equal to obj (which is not necessarily obj itself)
+        self.pop(list.index(self, obj))
 
     def pop(self, index: SupportsIndex = -1) -> T:
         result = list.pop(self, index)
-        keys = [k for (k, v) in self._item_dict.items() if v == result]
-        for key in keys:
-            del self._item_dict[key]
+
+        # only remove the name of the item that was taken out of the
+        # list: other items which compare equal to it (or further
+        # occurrences of the same object) must stay accessible
+        for key, value in self._item_dict.items():
+            if value is result:
+                del self._item_dict[key]
+                break
+
         return result
 
     def extend(self, items: Iterable[T]) -> None:
